@@ -27,10 +27,21 @@ pub struct Case {
     pub layout: Layout,
     pub rewrites: Vec<Rewrite>,
     pub cli: bool,
+    /// when present, the building and factors come from the DHW grammar (several DHW suppliers,
+    /// shared PV, multi-fuel cogeneration): the DHW indicator's branches are reached
+    #[serde(default)]
+    pub dhw: Option<crate::dhw::DhwCase>,
+}
+
+pub fn base_of(c: &Case) -> BFCase {
+    match &c.dhw {
+        Some(d) => BFCase { b: d.building(), f: d.factors(), k: d.k, area: c.base.area, lm: d.lm },
+        None => c.base.clone(),
+    }
 }
 
 pub fn rewritten(c: &Case) -> Building {
-    let mut b = c.base.b.clone();
+    let mut b = base_of(c).b;
     for r in &c.rewrites {
         b = apply_rewrite(&b, r);
     }
@@ -45,7 +56,7 @@ impl Prop for C10 {
     type Case = Case;
     const ID: &'static str = "C10";
     fn rule() -> String {
-        "cases = building() (with DEMANDA) x factor_case() x a composition of up to 4 rewritings (split a line into 2-3 lines with the same tags whose hundredths add up, same-sign pieces; bijective renumbering of system ids incl. to/from 0 and negative) \
+        "cases = building() (with DEMANDA; 20 %: the DHW grammar with its multi-fuel cogeneration) x factor_case() x a composition of up to 4 rewritings (split a line into 2-3 lines with the same tags whose hundredths add up, same-sign pieces; bijective renumbering of system ids incl. to/from 0 and negative) \
          x a generated layout (permuted lines, id 0 written or omitted, spacing, leading / trailing whitespace, blank lines, # comment lines, vector,... header, BOM, CRLF, demands first or last, metadata on top or inside); \
          oracle = the canonical and the rewritten file both parse, all numeric fields / RER values / DHW fraction agree within tolerance, three repeated evaluations agree; \
          about 1-2 % of the cases run the binary twice on the same file (identical line labels, numbers within one printed unit) and on both files; \
@@ -65,19 +76,25 @@ impl Prop for C10 {
         let mut p = params(tier);
         p.with_needs = true;
         let cli_p = tier.pick(0.015, 0.02);
-        (bf_case(p, 40), layout_s(), vec(rewrite_s(), 0..=4), prop::bool::weighted(cli_p)).prop_map(|(base, layout, rewrites, cli)| Case { base, layout, rewrites, cli }).boxed()
+        (bf_case(p, 40), layout_s(), vec(rewrite_s(), 0..=4), prop::bool::weighted(cli_p), proptest::option::weighted(0.2, crate::dhw::dhw_case(12)))
+            .prop_map(|(base, layout, rewrites, cli, dhw)| Case { base, layout, rewrites, cli, dhw })
+            .boxed()
     }
     fn describe(c: &Case) -> Value {
         serde_json::json!({
-            "canonical_file": c.base.b.render(),
+            "canonical_file": base_of(c).b.render(),
             "rewritten_file": render_layout(&rewritten(c), &c.layout),
             "rewrites": format!("{:?}", c.rewrites),
             "layout": describe_layout(&c.layout),
-            "factors": c.base.f.describe(), "k_exp": c.base.k, "area": c.base.area, "load_matching": c.base.lm, "cli": c.cli,
+            "factors": base_of(c).f.describe(), "k_exp": base_of(c).k, "area": c.base.area, "load_matching": base_of(c).lm, "cli": c.cli,
         })
     }
     fn check(c: &Case, ctx: &mut Ctx) -> CheckResult {
-        let e = &c.base;
+        let base = base_of(c);
+        let e = &base;
+        if c.dhw.is_some() {
+            ctx.label("dhw_grammar");
+        }
         let n = e.b.n;
         let t0 = e.b.render();
         let b1 = rewritten(c);
@@ -134,6 +151,17 @@ impl Prop for C10 {
             compare_flats(&fa, &flat(&r), &sc, &CmpOpts { names: ("first run", "repetition"), sub: "repeatable", tol_mult: 2.0, ..Default::default() })?;
             for (name, x, y) in [("rer", a.rer, r.rer), ("rer_nrb", a.rer_nrb, r.rer_nrb), ("rer_onst", a.rer_onst, r.rer_onst)] {
                 ensure!(((x - y).abs() as f64) <= 2.0 * rt * (1.0 + x.abs().max(y.abs()) as f64), "repeatable", "{}: {} then {}", name, x, y);
+            }
+            match (fraccion_renovable_acs_nrb(&a), fraccion_renovable_acs_nrb(&r)) {
+                (Ok(x), Ok(y)) => {
+                    let dem = a.balance.needs.ACS.unwrap_or(0.0).abs() as f64;
+                    if !((x.is_nan() && y.is_nan()) || dem < 1e-3 * sc.tot_energy) {
+                        let t = 4.0 * ratio_tol(tol(sc.tot_energy, sc.n), dem) + 1e-5;
+                        ensure!(((x - y).abs() as f64) <= t, "repeatable", "DHW renewable fraction {} then {}", x, y);
+                    }
+                }
+                (Err(x), Err(y)) => ensure!(strip_digits(x.to_string()) == strip_digits(y.to_string()), "repeatable", "DHW fraction error `{}` then `{}`", x, y),
+                (x, y) => fail!("repeatable", "DHW fraction {:?} then {:?}", x.map_err(|e| e.to_string()), y.map_err(|e| e.to_string())),
             }
         }
         if c.cli {
